@@ -302,6 +302,49 @@ def corr_default_rgrid(ctx: Ctx, mg):
                      witness={"Z": z})
 
 
+def corr_aim_route(ctx: Ctx, mg, ag, bk, od):
+    """round 6: the generated aim-weights default of the three constructors (Gen.MolGrid.fromX_aim) vs what the implementation hands to
+    `cls(...)` for None / a callable / an array / an object of another type (observed through a subclass)"""
+    seen = {}
+
+    class Spy(mg.MolGrid):
+        def __init__(self, atnums, atgrids, aim_weights, store=False):
+            seen["aim"] = aim_weights
+            super().__init__(atnums, atgrids, aim_weights, store=store)
+    atn, co, rg = np.array([1, 8]), np.array([[0.0, 0.0, 0.0], [0.0, 0.0, 2.0]]), od.GaussLaguerre(4)
+    kinds = ["none", "callable", "array", "other"]
+    ctors = ["from_preset", "from_size", "from_pruned"]
+    ans = driver_batch([f"C07.aimroute {c} {k}" for c in ctors for k in kinds])
+    it = iter(ans)
+    for c in ctors:
+        for k in kinds:
+            a = next(it)
+            size = {"from_preset": None, "from_size": None, "from_pruned": None}[c]
+            ref = {"from_preset": lambda aim: Spy.from_preset(atn, co, "coarse", rg, aim), "from_size": lambda aim: Spy.from_size(atn, co, 6, rg, aim),
+                   "from_pruned": lambda aim: Spy.from_pruned(atn, co, 1.0, [[], []], [[3], [3]], rgrid=rg, aim_weights=aim)}[c]
+            n = ref(None).size
+            obj = {"none": None, "callable": (lambda p, c_, z, i: np.full(len(p), 0.5)), "array": np.linspace(-1.0, 2.0, n), "other": [0.5] * n}[k]
+            seen.clear()
+            try:
+                ref(obj)
+                out = "ok"
+            except Exception as e:  # noqa: BLE001
+                out = _tag(e)
+            got = seen.get("aim", "not-reached")
+            if got is obj and obj is not None:
+                impl = "ok " + k
+            elif isinstance(got, bk.BeckeWeights):
+                impl = f"ok becke 1 {f2b(float(got._order))}" if hasattr(got, "_order") else "ok becke ?"
+            else:
+                impl = f"replaced by {type(got).__name__}"
+            ctx.count(["aimroute", c, k], nontrivial=k != "none", tag=f"aimroute:{c}:{k}:{out}")
+            if a != impl:
+                ctx.fail("corr", f"{c}:aim-route", f"MolGrid.{c} with aim_weights = {k}: the object handed to cls(...) is `{impl}`, the generated definition says `{a}`",
+                         witness={"constructor": c, "aim_weights": k, "atnums": atn, "coords": co, "store": False, "canon": [c, atn.tolist(), 2, "obj 1", "obj 1"]})
+            if k == "other" and out != "type-error":
+                ctx.fail("corr", f"{c}:aim-route", f"MolGrid.{c} with aim weights of an unsupported type gives {out} instead of TypeError")
+
+
 # ==========================================================================================
 # oracle bodies (appended to KINDS_PRELUDE of c07.py)
 # ==========================================================================================
